@@ -19,8 +19,8 @@ def dumpSpec : PExpr → Chunk
   | .list .nil => []
   | .list (.cons e r) => pa .LSQB :: (joinComma (dumpSpec e :: chunksArgs r) ++ [pa .RSQB])
   | .map kvs => pa .LBRACE :: (joinComma (chunksInits kvs) ++ [pa .RBRACE])
-  | .dot e n => dumpSpec e ++ [pa .DOT, .tok ⟨.IDENT, n⟩]
-  | .dotArg e n as => dumpSpec e ++ (pa .DOT :: .tok ⟨.IDENT, n⟩ :: pa .LPAR :: (joinComma (chunksArgs as) ++ [pa .RPAR]))
+  | .dot e n => selectDot (dumpSpec e) ++ [.tok ⟨.IDENT, n⟩]
+  | .dotArg e n as => selectDot (dumpSpec e) ++ (.tok ⟨.IDENT, n⟩ :: pa .LPAR :: (joinComma (chunksArgs as) ++ [pa .RPAR]))
   | .index e i => dumpSpec e ++ (pa .LSQB :: (dumpSpec i ++ [pa .RSQB]))
   | .obj e fs => dumpSpec e ++ (pa .LBRACE :: (joinComma (chunksFields fs) ++ [pa .RBRACE]))
   | .not e => [pa .BANG] ++ (.sp :: dumpSpec e)
@@ -284,6 +284,9 @@ theorem toks_append (a b : Chunk) : Chunk.toks (a ++ b) = Chunk.toks a ++ Chunk.
   | nil => rfl
   | cons p a ih => cases p <;> simp [Chunk.toks, ih]
 
+theorem toks_selectDot (c : Chunk) : Chunk.toks (selectDot c) = Chunk.toks c ++ [Tok.a .DOT] := by
+  unfold selectDot; split <;> simp [toks_append, Chunk.toks, pa]
+
 theorem joinComma_cons2 (c d : Chunk) (r : List Chunk) :
     joinComma (c :: d :: r) = c ++ (pa .COMMA :: .sp :: joinComma (d :: r)) := rfl
 
@@ -314,13 +317,13 @@ theorem toks_dumpSpec : (e : PExpr) → hasEmptyList e = false → Chunk.toks (d
         toks_dumpSpec k h.1.1, toks_dumpSpec v h.1.2]
   | .dot e n, h => by
       simp [hasEmptyList] at h
-      simp [dumpSpec, render, Chunk.toks, pa, toks_append, toks_dumpSpec e h]
+      simp [dumpSpec, render, Chunk.toks, pa, toks_append, toks_selectDot, toks_dumpSpec e h]
   | .dotArg e n .nil, h => by
       simp [hasEmptyList, hasEmptyListArgs] at h
-      simp [dumpSpec, chunksArgs, joinComma, render, renderArgs, Chunk.toks, pa, toks_append, toks_dumpSpec e h]
+      simp [dumpSpec, chunksArgs, joinComma, render, renderArgs, Chunk.toks, pa, toks_append, toks_selectDot, toks_dumpSpec e h]
   | .dotArg e n (.cons e1 r), h => by
       simp [hasEmptyList, hasEmptyListArgs] at h
-      simp [dumpSpec, chunksArgs, render, renderArgs, Chunk.toks, pa, toks_append, toks_joinArgs r h.2.2,
+      simp [dumpSpec, chunksArgs, render, renderArgs, Chunk.toks, pa, toks_append, toks_selectDot, toks_joinArgs r h.2.2,
         toks_dumpSpec e h.1, toks_dumpSpec e1 h.2.1]
   | .index e i, h => by
       simp [hasEmptyList] at h
